@@ -207,3 +207,10 @@ Example C12_example :
     mkO None 0 [] []; mkO (Some XClosed) 0 [] []; mkO (Some XClosed) 0 [] []; mkO (Some XClosed) 0 [] [];
     mkO None 0 [] [] ].
 Proof. split; [exact example_premises | exact example_history]. Qed.
+
+(* the numbers and tables this property's model uses are the ones the sources declare: Model/GenConsts.v is
+   regenerated from the repository under test (tools/consts) before every build *)
+From V Require Import Model.GenConsts Proofs.TieC12.
+Theorem C12_constants_are_the_sources : TieC12.tie.
+Proof. exact TieC12.tie_holds. Qed.
+Print Assumptions C12_constants_are_the_sources.
